@@ -849,7 +849,7 @@ Proof.
   intros text o tag H. unfold judge_parse in H. destruct o as [p| | |].
   - destruct (obs_okb text p) eqn:Hok.
     + exists p. split; [reflexivity|apply obs_okb_sound; exact Hok].
-    + exfalso. exact (v_ok_not_bad _ _ _ H).
+    + exfalso. destruct (kf_rat_suffix text && obs_okb text (drop_uncovered p)); [exact (v_ok_not_kf _ _ H)|exact (v_ok_not_bad _ _ _ H)].
   - exfalso. destruct (kf_exp_nesting text); [exact (v_ok_not_kf _ _ H)|exact (v_ok_not_bad _ _ _ H)].
   - exfalso. destruct (kf_stack_run text); [exact (v_ok_not_kf _ _ H)|exact (v_ok_not_bad _ _ _ H)].
   - exfalso. exact (v_ok_not_bad _ _ _ H).
@@ -883,15 +883,20 @@ Qed.
 Theorem judge_kf_narrow : forall text o id,
   judge_parse text o = v_kf id ->
   (id = "exp-nesting"%string /\ o = RHang /\ nest_threshold <= nest_depth text) \/
-  (id = "stack-overflow-prefix-run"%string /\ o = RAbort /\ run_threshold <= max_prefix_run text).
+  (id = "stack-overflow-prefix-run"%string /\ o = RAbort /\ run_threshold <= max_prefix_run text) \/
+  (id = "rational-suffix-dropped"%string /\ kf_rat_suffix text = true /\
+   exists p, o = RParse p /\ obs_okb text p = false /\ obs_okb text (drop_uncovered p) = true).
 Proof.
   intros text o id H. unfold judge_parse in H. destruct o as [p| | |].
-  - destruct (obs_okb text p); inversion H.
+  - destruct (obs_okb text p) eqn:Hok; [inversion H|].
+    destruct (kf_rat_suffix text && obs_okb text (drop_uncovered p)) eqn:Hk; [|inversion H].
+    apply andb_prop in Hk as [Hk1 Hk2]. right. right. inversion H. repeat split; try reflexivity; try exact Hk1.
+    exists p. repeat split; assumption.
   - destruct (kf_exp_nesting text) eqn:Hn; [|inversion H].
     left. inversion H. repeat split; try reflexivity.
     unfold kf_exp_nesting in Hn. apply Nat.leb_le in Hn. exact Hn.
   - destruct (kf_stack_run text) eqn:Hn; [|inversion H].
-    right. inversion H. repeat split; try reflexivity.
+    right. left. inversion H. repeat split; try reflexivity.
     unfold kf_stack_run in Hn. apply Nat.leb_le in Hn. exact Hn.
   - inversion H.
 Qed.
